@@ -166,6 +166,7 @@ func Resume(
 		return err
 	}
 
+	nullPadded := false
 	for {
 		// Grab the length of the section.
 		// Note that ReadUvarint wants a ByteReader.
@@ -180,6 +181,7 @@ func Resume(
 		// Null padding; by default it's an error.
 		if length == 0 {
 			if zeroLengthSectionAsEOF {
+				nullPadded = true
 				break
 			} else {
 				return fmt.Errorf("carv1 null padding not allowed by default; see WithZeroLegthSectionAsEOF")
@@ -207,6 +209,20 @@ func Resume(
 				err = io.ErrUnexpectedEOF
 			}
 			return fmt.Errorf("truncated section at offset %d: %w", sectionOffset, err)
+		}
+	}
+	if nullPadded {
+		// The payload ends at a zero-length section: what follows is not payload and is about
+		// to be overwritten. Cut it off, so that a section that was only partially written is
+		// again recognised by the end of the file.
+		if t, ok := rw.(interface{ Truncate(size int64) error }); ok {
+			end := sectionOffset
+			if !v1 {
+				end += int64(dataOffset)
+			}
+			if err := t.Truncate(end); err != nil {
+				return err
+			}
 		}
 	}
 	// Seek to the end of last skipped block where the writer should resume writing.
